@@ -2,7 +2,7 @@
 # usage: lib/confirm_seed.sh <seedid> — confirms a sub-agent's seeded change in its scratch worktree:
 # suite passes with the change; demonstration fails with it and passes without it. Then files it under seeded/.
 set -u
-id=$1; wt=/tmp/seed/$id; out=/tmp/seed/out/$id
+id=$1; wt=/tmp/seed/wt_$id; [ -d $wt ] || wt=/tmp/seed/$id; out=/tmp/seed/out/$id
 export GOFLAGS=-mod=mod GOPROXY=off GOSUMDB=off GOTOOLCHAIN=local
 cd $wt || exit 2
 git checkout -q -- . ; git clean -fdq -e nothing >/dev/null 2>&1
